@@ -30,7 +30,10 @@ def verify_contract(contract, native=None, canary=True):
     except OutsideSubset as e:
         return [Ob('outside-subset', fn, 'pyvc', P, 'outside', detail=str(e), kind='subset')]
     except KeyError as e:
-        return [Ob('function-missing', fn, 'pyvc', P, 'outside', detail=f'function {e} not found in source', kind='subset')]
+        return [Ob('function-missing', fn, 'pyvc', P, 'outside', detail=f'function/name {e} not found (source or contract environment)', kind='subset')]
+    except (AttributeError, TypeError, AssertionError, IndexError, z3.Z3Exception) as e:
+        # the contract's invariants/postconditions could not even be evaluated on the (edited) text: treated like leaving the subset
+        return [Ob('contract-not-evaluable', fn, 'pyvc', P, 'outside', detail=f'{type(e).__name__}: {e}\n' + traceback.format_exc()[-600:], kind='subset')]
     h = src_hash(vc.src_segment)
     changed = _hashes().get(fn) not in (None, h)
     out = []
